@@ -118,6 +118,9 @@ def compute_probabilities_of_getting_resumed(
         # For some candidates, the condition is already fulfilled. For these,
         # we return 1
         non_trivial_index = np.nonzero(cpos_indicator)[0]
+        if non_trivial_index.size == 0:
+            # The condition is fulfilled for all candidates
+            return np.ones(orig_num_trials)
         c_vals = c_vals[non_trivial_index]
         prom_quants = prom_quants[non_trivial_index]
         p_vals = p_vals[non_trivial_index]
